@@ -16,6 +16,9 @@ Req == /\ l <= Len(Trace) /\ ev.ev = "Request" /\ l' = l + 1
        /\ Proj(ev.stored) = b'                                   \* what is stored is exactly the requested change
        /\ ~res'.refused => (Proj(ev.returned) = b' /\ ev.byuser)  \* the returned bug reflects it; authored by the attached user
        /\ ev.changed = ~res'.refused                              \* refs, objects, cache answers moved iff accepted
+       \* the request met the same request sent without a user (at the same time, the bug not yet loaded): that one is refused,
+       \* and everything above holds for the other all the same
+       /\ ev.race => ev.anonok
 TraceNext == Reset \/ Req
 TraceSpec == TraceInit /\ [][TraceNext]_<<vars, l>>
 TraceAccepted == TLCGet("stats").diameter - 1 = Len(Trace)
